@@ -105,3 +105,106 @@ def permuted_scandir(order_fn):
         yield
     finally:
         os.scandir = real
+
+
+# --------------------------------------------------------------------------
+# virtual process pool
+
+
+class VirtualPool:
+    """Stand-in for multiprocessing.Pool that executes a harness-chosen
+    schedule in-process.  It models what Pool.map does: the job list is cut
+    into chunks, the callable is pickled *per chunk* (so per-chunk state of the
+    callable is isolated exactly as in a worker process), chunks are executed
+    in the schedule's order, results come back in job order (map/imap) or in
+    completion order (imap_unordered)."""
+
+    def __init__(self, schedule, log):
+        self.schedule = schedule  # {"chunksize": int, "order": "perm index" | list}
+        self.log = log
+
+    # context manager protocol used by `with mp.Pool() as pool:`
+    def __call__(self, *a, **kw):
+        return self
+
+    def __enter__(self):
+        return self
+
+    def __exit__(self, *a):
+        return False
+
+    def join(self):
+        return None
+
+    def close(self):
+        return None
+
+    def terminate(self):
+        return None
+
+    def _run(self, func, iterable):
+        import pickle
+
+        jobs = list(iterable)
+        n = len(jobs)
+        cs = max(1, int(self.schedule.get("chunksize") or 1))
+        chunks = [list(range(i, min(i + cs, n))) for i in range(0, n, cs)]
+        order = self.schedule.get("order")
+        idx = list(range(len(chunks)))
+        if order == "reverse":
+            idx.reverse()
+        elif isinstance(order, int) and chunks:
+            k = order % len(chunks)
+            idx = idx[k:] + idx[:k]
+        elif isinstance(order, list):
+            idx = [i for i in order if i < len(chunks)] + [i for i in idx if i not in order]
+        results = [None] * n
+        completion = []
+        blob = pickle.dumps(func)
+        for ci in idx:
+            f = pickle.loads(blob)  # fresh copy of the callable per chunk, as in a worker
+            for j in chunks[ci]:
+                results[j] = pickle.loads(pickle.dumps(f(jobs[j])))
+                completion.append(j)
+        self.log.append({"jobs": n, "chunks": len(chunks), "order": idx})
+        return results, completion
+
+    def map(self, func, iterable, chunksize=None):
+        return self._run(func, iterable)[0]
+
+    def imap(self, func, iterable, chunksize=1):
+        return iter(self._run(func, iterable)[0])
+
+    def imap_unordered(self, func, iterable, chunksize=1):
+        res, comp = self._run(func, iterable)
+        return iter([res[j] for j in comp])
+
+    def starmap(self, func, iterable, chunksize=None):
+        return self._run(lambda args: func(*args), iterable)[0]
+
+    def __getattr__(self, name):
+        from .core import HarnessGap
+
+        raise HarnessGap(f"VirtualPool does not model Pool.{name}")
+
+
+@contextlib.contextmanager
+def virtual_pool(schedule):
+    import reuse.report as rep
+
+    log = []
+    real = rep.mp.Pool
+    fake_mp = type("FakeMP", (), {})()
+    for k in dir(rep.mp):
+        if not k.startswith("__"):
+            try:
+                setattr(fake_mp, k, getattr(rep.mp, k))
+            except Exception:
+                pass
+    fake_mp.Pool = VirtualPool(schedule, log)
+    old = rep.mp
+    rep.mp = fake_mp
+    try:
+        yield log
+    finally:
+        rep.mp = old
